@@ -221,13 +221,113 @@ func (p *Prog) Callee(c ssa.CallInstruction) *ssa.Function {
 	}
 	switch v := cc.Value.(type) {
 	case *ssa.Function:
+		if t := p.wrapperTarget(v); t != nil && strings.HasPrefix(v.Synthetic, "thunk") {
+			return t // a method expression (Rate.Recalculate(rt, minimum)): same arguments as the method
+		}
 		return p.Norm(v)
 	case *ssa.MakeClosure:
 		if f, ok := v.Fn.(*ssa.Function); ok {
+			if _, isGo := c.(*ssa.Go); isGo {
+				// go func() { dsc.main() }() starts dsc.main
+				if inner := thinGoTarget(f); inner != nil {
+					return p.Callee(inner)
+				}
+			}
 			return p.Norm(f)
 		}
 	}
 	return nil
+}
+
+// wrapperTarget: the method behind a bound-method wrapper (x.m as a value) or a method-expression
+// thunk (T.m); nil for anything else.
+func (p *Prog) wrapperTarget(fn *ssa.Function) *ssa.Function {
+	if fn == nil || !(strings.HasPrefix(fn.Synthetic, "bound method wrapper") || strings.HasPrefix(fn.Synthetic, "thunk")) {
+		return nil
+	}
+	var only *ssa.Function
+	for _, b := range fn.Blocks {
+		for _, in := range b.Instrs {
+			if call, ok := in.(ssa.CallInstruction); ok {
+				cc := call.Common()
+				if cc.IsInvoke() {
+					return nil
+				}
+				g, isFn := cc.Value.(*ssa.Function)
+				if !isFn || only != nil {
+					return nil
+				}
+				only = g
+			}
+		}
+	}
+	return p.Norm(only)
+}
+
+// thinGoTarget: fn is a closure whose whole body is one static call on captured variables
+// (func() { dsc.main() }); returns that call.
+func thinGoTarget(fn *ssa.Function) *ssa.Call {
+	if fn == nil || fn.Parent() == nil || len(fn.Blocks) != 1 || len(fn.Params) != 0 {
+		return nil
+	}
+	var only *ssa.Call
+	for _, in := range fn.Blocks[0].Instrs {
+		switch x := in.(type) {
+		case *ssa.DebugRef:
+		case *ssa.UnOp:
+			if _, isFV := x.X.(*ssa.FreeVar); !isFV || x.Op != token.MUL {
+				return nil
+			}
+		case *ssa.Call:
+			if only != nil {
+				return nil
+			}
+			only = x
+		case *ssa.Return:
+			if len(x.Results) != 0 {
+				return nil
+			}
+		default:
+			return nil
+		}
+	}
+	if only == nil || only.Call.IsInvoke() {
+		return nil
+	}
+	if _, isFn := only.Call.Value.(*ssa.Function); !isFn {
+		return nil
+	}
+	return only
+}
+
+// isThinGoClosure: fn is such a closure and is only ever started with a go statement.
+func isThinGoClosure(fn *ssa.Function) bool {
+	return thinGoTarget(fn) != nil && isGoOnlyClosure(fn)
+}
+
+// isGoOnlyClosure: fn is a closure literal that is only ever started with a go statement: its
+// body runs in the new goroutine, not in the function that contains the literal.
+func isGoOnlyClosure(fn *ssa.Function) bool {
+	if fn == nil || fn.Parent() == nil || fn.Referrers() == nil {
+		return false
+	}
+	n := 0
+	for _, r := range *fn.Referrers() {
+		mc, ok := r.(*ssa.MakeClosure)
+		if !ok || mc.Referrers() == nil {
+			return false
+		}
+		for _, rr := range *mc.Referrers() {
+			switch rr.(type) {
+			case *ssa.Go:
+				n++
+			case *ssa.DebugRef:
+			default:
+				return false
+			}
+		}
+	}
+	return n > 0
 }
 
 // Funcs lists every function with a body in product packages (generic origins, incl. closures), sorted.
@@ -243,6 +343,9 @@ func (p *Prog) Funcs() []*ssa.Function {
 		}
 		if f.Synthetic != "" && f.Synthetic != "package initializer" {
 			return
+		}
+		if isThinGoClosure(f) {
+			return // represented by its go statement (Callee)
 		}
 		seen[f] = true
 		for _, a := range f.AnonFuncs {
